@@ -1,6 +1,6 @@
 pub use super::types::{ByteCode, CelStackValue, JmpWhen, RsCallable};
 use crate::{types::CelByteCode, CelValueDyn};
-use std::{collections::HashMap, fmt};
+use std::{cell::Cell, collections::HashMap, fmt, rc::Rc};
 
 use crate::{
     context::construct_type, utils::ScopedCounter, BindContext, CelContext, CelError, CelResult,
@@ -53,6 +53,7 @@ impl<'a, 'b> InterpStack<'a, 'b> {
                             }
                         }
 
+                        self.ctx.unresolved.set(true);
                         Ok(CelValue::from_err(CelError::binding(&name)).into())
                     } else {
                         Ok(val.into())
@@ -103,6 +104,10 @@ pub struct Interpreter<'a> {
     cel: Option<&'a CelContext>,
     bindings: Option<&'a BindContext<'a>>,
     depth: ScopedCounter,
+    // set when a name could not be resolved (unbound identifier, no such field or
+    // method, not callable); shared with the interpreters of macro bodies. The result
+    // of such a run depends on what is bound, which matters to the compiler.
+    unresolved: Rc<Cell<bool>>,
 }
 
 impl<'a> Interpreter<'a> {
@@ -111,6 +116,7 @@ impl<'a> Interpreter<'a> {
             cel: Some(cel),
             bindings: Some(bindings),
             depth: ScopedCounter::new(),
+            unresolved: Rc::new(Cell::new(false)),
         }
     }
 
@@ -119,7 +125,14 @@ impl<'a> Interpreter<'a> {
             cel: None,
             bindings: None,
             depth: ScopedCounter::new(),
+            unresolved: Rc::new(Cell::new(false)),
         }
+    }
+
+    /// Whether a run of this interpreter (or of a macro body on its behalf) met a name
+    /// it could not resolve.
+    pub fn met_unresolved_name(&self) -> bool {
+        self.unresolved.get()
     }
 
     /// An interpreter for code that runs on behalf of this one (macro bodies) with
@@ -130,6 +143,7 @@ impl<'a> Interpreter<'a> {
             cel: Some(cel),
             bindings: Some(bindings),
             depth: ScopedCounter::starting_at(self.depth.count()),
+            unresolved: self.unresolved.clone(),
         }
     }
 
@@ -369,6 +383,7 @@ impl<'a> Interpreter<'a> {
                                         value: obj,
                                     }),
                                     Err(_) => {
+                                        self.unresolved.set(true);
                                         stack.push(
                                             CelValue::from_err(CelError::attribute(
                                                 "obj",
@@ -408,6 +423,7 @@ impl<'a> Interpreter<'a> {
                                         // every other operator; it is not a missing field
                                         stack.push_val(obj);
                                     } else {
+                                        self.unresolved.set(true);
                                         stack.push(
                                             CelValue::from_err(CelError::attribute(
                                                 "obj",
@@ -485,6 +501,7 @@ impl<'a> Interpreter<'a> {
                                             Err(err) => stack.push_val(err.into()),
                                         }
                                     } else {
+                                        self.unresolved.set(true);
                                         stack.push_val(CelValue::from_err(CelError::runtime(
                                             &format!("{} is not callable", func_name),
                                         )));
